@@ -21,30 +21,38 @@ let mk pre extra vals =
   (base, { M.voff = z pre; M.vlen = z n; M.vcap = z (n + extra) })
 
 let show_view w r =
-  let len = int_of_z r.M.vlen in
-  (if len = 0 then "-" else string_of_int (int_of_z r.M.voff)) ^ ":" ^ string_of_int len ^ ":" ^ b01 (M.can_overwrite w r)
+  let len = int_of_z r.M.vlen and cap = int_of_z r.M.vcap in
+  (if cap = 0 then "-" else string_of_int (int_of_z r.M.voff)) ^ ":" ^ string_of_int len ^ ":" ^ string_of_int cap ^ ":" ^ b01 (M.can_overwrite w r)
 let show_views w rs = if rs = [] then "." else String.concat "," (List.map (show_view w) rs)
 
 let keep_of mask v = v >= 0 && v < 62 && (mask lsr v) land 1 = 1
 
 let parse_lists s = if s = "-" then [] else List.map ints_of (String.split_on_char ';' s)
 
+(* An int argument of the call can be any 64-bit value, OCaml's ints have 63 bits: the model gets
+   the exact value (z_of_string); the specification below only compares the argument with numbers
+   of the size of the slice, so there it is clamped to +-2^60. *)
+let clamp_int s =
+  let neg = String.length s > 0 && s.[0] = '-' in
+  let digits = if neg then String.length s - 1 else String.length s in
+  if digits >= 18 then (if neg then - (1 lsl 60) else 1 lsl 60) else int_of_string s
+
 let eval inp =
   match words inp with
   | ["S"; i; ls] ->
-    show_res str_ints (M.stripe (parse_lists ls) (z (int_of_string i)))
+    show_res str_ints (M.stripe (parse_lists ls) (z_of_string i))
   | [k; pre; extra; vals; arg] ->
-    let pre = int_of_string pre and extra = int_of_string extra and vals = ints_of vals and arg = int_of_string arg in
+    let pre = int_of_string pre and extra = int_of_string extra and vals = ints_of vals and zarg = z_of_string arg in
     let (base, v) = mk pre extra vals in
     (match k with
-     | "P" -> show_res (fun (b', r) -> show_view v r ^ " " ^ str_ints (M.window b' r) ^ " " ^ str_ints b') (M.partition (keep_of arg) base v)
-     | "R" -> show_res str_ints (M.rotate base v (z arg))
-     | "C" -> show_res (fun rs -> show_views v rs ^ " " ^ str_ints base) (M.chunks v (z arg))
-     | "B" -> show_res (fun rs -> show_views v rs ^ " " ^ str_ints base) (M.batches v (z arg))
-     | "H" -> show_res (fun r -> show_view v r ^ " " ^ str_ints base) (M.head v (z arg))
-     | "T" -> show_res (fun r -> show_view v r ^ " " ^ str_ints base) (M.tail v (z arg))
-     | "A" -> show_res string_of_int (M.at_ (M.window base v) (z arg))
-     | "Q" -> show_res (function None -> "nil" | Some p -> string_of_int (pre + int_of_z p)) (M.ptr_at (M.window base v) (z arg))
+     | "P" -> show_res (fun (b', r) -> show_view v r ^ " " ^ str_ints (M.window b' r) ^ " " ^ str_ints b') (M.partition (keep_of (int_of_string arg)) base v)
+     | "R" -> show_res str_ints (M.rotate base v zarg)
+     | "C" -> show_res (fun rs -> show_views v rs ^ " " ^ str_ints base) (M.chunks v zarg)
+     | "B" -> show_res (fun rs -> show_views v rs ^ " " ^ str_ints base) (M.batches v zarg)
+     | "H" -> show_res (fun r -> show_view v r ^ " " ^ str_ints base) (M.head v zarg)
+     | "T" -> show_res (fun r -> show_view v r ^ " " ^ str_ints base) (M.tail v zarg)
+     | "A" -> show_res string_of_int (M.at_ (M.window base v) zarg)
+     | "Q" -> show_res (function None -> "nil" | Some p -> string_of_int (pre + int_of_z p)) (M.ptr_at (M.window base v) zarg)
      | _ -> "?")
   | _ -> "?"
 
@@ -53,11 +61,24 @@ exception Bad of string
 let bad fmt = Printf.ksprintf (fun s -> raise (Bad s)) fmt
 let is_panic out = String.length out >= 6 && String.sub out 0 6 = "panic:"
 
-type pview = { off : int option; len : int; cls : bool }
+(* off: the slot the data pointer addresses (None when cap = 0: such a pointer means nothing) *)
+type pview = { off : int option; len : int; cap : int; cls : bool }
 let parse_view s =
   match String.split_on_char ':' s with
-  | [o; l; c] -> { off = (if o = "-" then None else if o = "ext" then Some (-1) else Some (int_of_string o)); len = int_of_string l; cls = (c = "1") }
+  | [o; l; k; c] -> { off = (if o = "-" then None else if o = "ext" then Some (-1) else Some (int_of_string o)); len = int_of_string l; cap = int_of_string k; cls = (c = "1") }
   | _ -> bad "bad view syntax %s" s
+
+(* "Capacity-clipped" (the reading of DESIGN.md section 5, C17): the capacity of a returned slice
+   ends at its own end, cap = len.  The one exception are the early returns of the pinned code that
+   hand back the input itself and not a subslice computed from it -- Partition of an empty slice and
+   Chunks with n = 0 or n >= len -- where the result may be vs, capacity and all.  [allowed_self]
+   says whether the call is one of those; everything else with cap > len is a violation, whether
+   or not the spare capacity happens to lie inside vs. *)
+let is_self pre n extra v = v.len = n && v.cap = n + extra && (match v.off with Some o -> o = max pre 0 | None -> true)
+let check_clip what pre n extra ~allowed_self v =
+  if v.cap < v.len then bad "%s: capacity %d below length %d" what v.cap v.len;
+  if v.cap <> v.len && not (allowed_self && is_self pre n extra v) then
+    bad "%s: capacity %d is not clipped to the length %d (appending to the result writes into the caller's array)" what v.cap v.len
 let parse_views s = if s = "." then [] else List.map parse_view (String.split_on_char ',' s)
 
 let rec take n l = if n <= 0 then [] else match l with [] -> [] | x :: r -> x :: take (n - 1) r
@@ -81,6 +102,7 @@ let check_cover pre n vs =
   List.iter (fun v ->
     (match v.off with Some o when o <> !pos -> bad "subslice starts at %d, expected %d" o !pos | _ -> ());
     if v.cls then bad "appending to the subslice at %d overwrites an element of the input" !pos;
+    if v.len < 0 then bad "negative length";
     pos := !pos + v.len) vs;
   if !pos <> pre + n then bad "subslices cover %d elements, the input has %d" (!pos - pre) n
 
@@ -89,13 +111,13 @@ let spec prop inp out =
   try
     (match words inp with
      | ["S"; i; ls] ->
-       let i = int_of_string i and ls = parse_lists ls in
+       let i = clamp_int i and ls = parse_lists ls in
        if i >= 0 then begin
          let want = List.concat_map (fun l -> match List.nth_opt l i with Some x -> [x] | None -> []) ls in
          if out <> str_ints want then bad "Stripe: expected %s" (str_ints want)
        end
      | [k; pre; extra; vals; arg] ->
-       let pre = int_of_string pre and extra = int_of_string extra and vals = ints_of vals and arg = int_of_string arg in
+       let pre = int_of_string pre and extra = int_of_string extra and vals = ints_of vals and arg = clamp_int arg in
        let n = List.length vals in
        let a = Array.of_list vals in
        let must_not_panic () = if is_panic out || out = "hang" || out = "hang-skipped" then bad "%s on a documented argument" out in
@@ -110,6 +132,7 @@ let spec prop inp out =
              if v.len <> List.length want then bad "Partition: result length";
              (match v.off with Some o when o <> pre -> bad "Partition: result is not a prefix of vs (starts at %d)" o | _ -> ());
              if v.cls then bad "Partition: appending to the result overwrites an element of vs (capacity not clipped)";
+             check_clip "Partition" pre n extra ~allowed_self:(n = 0) v;
              if take v.len w' <> want then bad "Partition: vs does not begin with the kept elements";
              if List.sort compare w' <> List.sort compare vals then bad "Partition: vs is not a permutation of its original contents"
            | _ -> bad "bad output syntax")
@@ -135,6 +158,7 @@ let spec prop inp out =
                check_cover pre n vs;
                let m = List.length vs in
                if m = 0 then bad "Chunks: no chunk";
+               List.iter (check_clip "Chunks" pre n extra ~allowed_self:(m = 1 && (arg = 0 || arg >= n))) vs;
                if arg = 0 then (if m <> 1 then bad "Chunks: n = 0 must give a single chunk")
                else List.iteri (fun j v ->
                  if j < m - 1 && v.len <> arg then bad "Chunks: chunk %d has length %d" j v.len;
@@ -151,6 +175,7 @@ let spec prop inp out =
                if w' <> vals then bad "Batches: input modified";
                (* n = 0 is documented to return nil; otherwise the batches cover vs *)
                if arg > 0 then check_cover pre n vs;
+               List.iter (check_clip "Batches" pre n extra ~allowed_self:false) vs;
                if List.length vs <> min arg n then bad "Batches: %d batches, expected min(n, len) = %d" (List.length vs) (min arg n);
                let lens = List.map (fun v -> v.len) vs in
                if lens <> [] then begin
